@@ -185,8 +185,15 @@ Grow(done, frontier, n) ==
                           : st \in frontier}
        IN  Grow(done \cup frontier, next, n - 1)
 Grown == Grow({}, {<<(<<>>), "swagger", "">>}, MaxChain)
+\* values that are empty (not normal form) yet may be valid: the validator decides which of them are used
+EmptyClasses(vt) ==
+  (IF vt \in {"schemaOrArray", "schemaOrBool", "anymap", "scopes", "any", "map:schemaOrStrings"}
+      \/ (Len(vt) > 5 /\ SubSeq(vt, 1, 5) = "kind:") \/ (Len(vt) > 4 /\ SubSeq(vt, 1, 4) = "map:") THEN {"emptyObj"} ELSE {})
+  \cup (IF vt \in {"strs", "anys", "security", "schemaOrArray"} \/ (Len(vt) > 5 /\ SubSeq(vt, 1, 5) = "list:") THEN {"emptyArr"} ELSE {})
+  \cup (IF vt = "str" THEN {"emptyStr"} ELSE {}) \cup (IF vt = "bool" THEN {"false"} ELSE {})
 SingleMembers(k, fl) ==
-  UNION {{<<M(k, kw, c)>> : c \in NFClasses(VTypeOf(k, kw), kw \in RequiredOf(k, fl))} : kw \in Free(k, fl)}
+  UNION {{<<M(k, kw, c)>> : c \in NFClasses(VTypeOf(k, kw), kw \in RequiredOf(k, fl)) \cup (IF VTypeOf(k, kw) = "ref" THEN {} ELSE EmptyClasses(VTypeOf(k, kw)))}
+          : kw \in Free(k, fl)}
   \cup (IF AdmitsExt(k, fl) THEN {<<[name |-> "x-ext", vt |-> "any", cls |-> "obj"]>>} ELSE {})
 ValidCases == UNION {{Case("valid", st[1], st[2], st[3], ms) : ms \in SingleMembers(st[2], st[3])} : st \in Grown}
 
